@@ -144,6 +144,7 @@ impl Scenario for Bytes {
         if self.prop != BProp::C07 {
             cov.probe_declare("ground_truth_checked");
             cov.probe_declare("keyboard_clear_inside_a_key_sequence");
+            cov.probe_declare("rejected_frame_between_the_bytes_of_the_stream");
         } else {
             cov.probe_declare("recovery_checked");
             cov.probe_declare("obs_shadow_replaced_after_error");
@@ -256,6 +257,11 @@ impl Scenario for Bytes {
         let mut h = LogHash::new();
         let mut real = if cfg.obj == 1 { DynSet::via_default(cfg.set) } else { DynSet::new(cfg.set) };
         let mut kb = KbAny::new(cfg.set, DynLayout::Direct(2), hc(true));
+        // the other public routes by which the same bytes reach the same decoder: as frames handed
+        // to Keyboard::add_word, and bit by bit to Keyboard::add_bit (a damaged frame in between
+        // delivers no byte and so is not part of the stream)
+        let mut kb_word = KbAny::new(cfg.set, DynLayout::Direct(2), hc(true));
+        let mut kb_bit = KbAny::new(cfg.set, DynLayout::Direct(2), hc(true));
         let mut m2 = RefSet2::new();
         let mut m1 = RefSet1::new();
         let mut shadow = DynSet::new(cfg.set);
@@ -324,7 +330,9 @@ impl Scenario for Bytes {
             for (bi, b) in bytes.iter().copied().enumerate() {
                 if clear_at == Some(bi) && self.prop != BProp::C07 {
                     kb.clear();
-                    env.cov.api_calls += 1;
+                    kb_word.clear();
+                    kb_bit.clear();
+                    env.cov.api_calls += 3;
                     env.cov.probe("keyboard_clear_inside_a_key_sequence");
                 }
                 let ctx = if cfg.set == 2 { m2.ctx as usize } else { m1.ctx as usize };
@@ -364,6 +372,58 @@ impl Scenario for Bytes {
                                 detail: format!("byte {:02X}: advance_state gave {}, Keyboard::add_byte gave {}", b, r.show(), rk.show()),
                             });
                             break 'ops;
+                        }
+                        // the documented loop: what the byte decoded to goes on to the same object's
+                        // event stage before the next byte arrives
+                        if let Res::Ev(k, st) = rk {
+                            let _ = kb.process_keyevent(pc_keyboard::KeyEvent::new(k, st));
+                            env.cov.api_calls += 1;
+                        }
+                        {
+                            let w = bits_word(&encode_frame(b));
+                            if (i * 7 + bi) % 5 == 2 {
+                                // a frame the line damaged (parity / stop bit): rejected, no byte
+                                let bad = if (i + bi) % 2 == 0 { w ^ 0x200 } else { (w ^ 0x55 << 1) & 0x3FF };
+                                let _ = kb_word.add_word(bad);
+                                for bit in word_bits(bad) {
+                                    let _ = kb_bit.add_bit(bit);
+                                }
+                                env.cov.api_calls += 12;
+                                env.cov.probe("rejected_frame_between_the_bytes_of_the_stream");
+                            }
+                            let rw = Res::of(&kb_word.add_word(w));
+                            let mut rb = Res::Pending;
+                            let mut early = false;
+                            for (j, bit) in word_bits(w).iter().enumerate() {
+                                let x = Res::of(&kb_bit.add_bit(*bit));
+                                if j < 10 {
+                                    early |= x != Res::Pending;
+                                } else {
+                                    rb = x;
+                                }
+                            }
+                            env.cov.api_calls += 12;
+                            env.cov.evaluations += 2;
+                            if rw != r || rb != r || early {
+                                violation = Some(Violation {
+                                    oracle: "keyboard-frame-routes-equal-advance_state".into(),
+                                    op_index: i,
+                                    detail: format!(
+                                        "byte {:02X} of the stream: advance_state gave {}, the same stream as valid frames gave {} through Keyboard::add_word and {} through Keyboard::add_bit{}",
+                                        b,
+                                        r.show(),
+                                        rw.show(),
+                                        rb.show(),
+                                        if early { " (a result before the 11th bit)" } else { "" }
+                                    ),
+                                });
+                                break 'ops;
+                            }
+                            if let Res::Ev(k, st) = r {
+                                let _ = kb_word.process_keyevent(pc_keyboard::KeyEvent::new(k, st));
+                                let _ = kb_bit.process_keyevent(pc_keyboard::KeyEvent::new(k, st));
+                                env.cov.api_calls += 2;
+                            }
                         }
                         if r != m {
                             let names: &[&str] = if cfg.set == 2 { &CTX2_NAMES } else { &CTX1_NAMES };
